@@ -179,6 +179,17 @@ Lemma current_ambient_table :
     []; [12]; [7]; [7; 12] ].
 Proof. vm_compute. reflexivity. Qed.
 
+(* the hypothesis of the workers theorem, as far as the translator can see it in the source: worker_task keeps nothing across
+   operations (no local bound outside the operation loop and read inside it), get_strategy_kwargs mutates only objects it created,
+   no module-level mutable state, one shared operations iterator under the lock *)
+Lemma no_cross_operation_state : existsb (has_kind SharedState) gen_sites = false.
+Proof. vm_compute. reflexivity. Qed.
+
+Lemma no_cross_operation_state_ctx : forall x, ambient_kind_active SharedState gen_sites x = false.
+Proof.
+  intros [p n m]. destruct p, n, m; vm_compute; reflexivity.
+Qed.
+
 (* the per-case id is drawn from ambient entropy but is outside the compared request *)
 Lemma case_id_not_in_request : forall s, In s gen_sites -> has_kind OsRandom s = true -> s_multipart_only s = false -> s_in_request s = false.
 Proof.
